@@ -2,6 +2,7 @@ package props
 
 import (
 	"fmt"
+	"strings"
 	"time"
 
 	"github.com/zitadel/saml/pkg/provider/xml/md"
@@ -49,6 +50,19 @@ var c16EndToEnd = func(run *ev.Run) {
 			}
 		}
 	}
+	// histories: every list of length 2 x requested binding, after an earlier request of the same SP with the NEXT requested
+	// binding of the alphabet (a selection that reorders or caches the registered list shows here)
+	for i := 0; i < nHealthy; i++ {
+		cs := cases[i]
+		if cs.Transport == "redirect" && len(cs.Shapes) == 2 {
+			for k, rq := range c16Requested {
+				if rq == cs.Requested {
+					cs.Persist = "after-request:" + c16Requested[(k+1)%len(c16Requested)]
+				}
+			}
+			cases = append(cases, cs)
+		}
+	}
 	deadline := devx.Deadline(5 * time.Minute)
 	n, complete := parallel(len(cases), deadline, func(i int) {
 		cs := cases[i]
@@ -84,6 +98,15 @@ func c16E2EOne(shapes []int, requested, transport, persist string) (class, claus
 	if _, err := w.Store.RegisterSP("app-a", a.XML()); err != nil {
 		panic(err)
 	}
+	history := ""
+	if strings.HasPrefix(persist, "after-request:") {
+		// history on one provider: an earlier request of the same SP with another requested binding is handled first; the
+		// judged request still gets the documented choice for the list as registered (document order)
+		history, persist = persist, ""
+		earlier := strings.TrimPrefix(history, "after-request:")
+		edoc := msg.Authn(msg.AuthnOpts{ID: "_earlier", Issuer: a.EntityID, Destination: w.Cfg.SSOLocation(""), ProtocolBinding: earlier}).Render(xt.Style{})
+		w.Do(msg.Redirect{XML: edoc, RelayState: "rs0"}.Request("", w.Cfg.SSOPath()))
+	}
 	if persist != "" {
 		w.Store.FaultAt("CreateAuthRequest", 1, persist)
 	}
@@ -98,6 +121,9 @@ func c16E2EOne(shapes []int, requested, transport, persist string) (class, claus
 	labels = []string{"end-to-end", "transport=" + transport, "rule=" + rule}
 	if requested == "" {
 		labels = append(labels, "requested=absent")
+	}
+	if history != "" {
+		labels = append(labels, "history="+history)
 	}
 	create := world.FindCall(rep.Calls, "CreateAuthRequest")
 	if persist != "" {
